@@ -373,6 +373,9 @@ func (doc *T) derefHeaders(hs Headers, refNameResolver RefNameResolver, parentIs
 	for _, name := range componentNames(hs) {
 		h := hs[name]
 		isExternal := doc.addHeaderToSpec(h, refNameResolver, parentIsExternal)
+		if h == nil || h.Value == nil {
+			continue
+		}
 		if doc.isVisitedHeader(h.Value) {
 			continue
 		}
@@ -417,6 +420,9 @@ func (doc *T) derefLinks(ls Links, refNameResolver RefNameResolver, parentIsExte
 
 func (doc *T) derefResponse(r *ResponseRef, refNameResolver RefNameResolver, parentIsExternal bool) {
 	isExternal := doc.addResponseToSpec(r, refNameResolver, parentIsExternal)
+	if r == nil {
+		return
+	}
 	if v := r.Value; v != nil {
 		doc.derefHeaders(v.Headers, refNameResolver, isExternal || parentIsExternal)
 		doc.derefContent(v.Content, refNameResolver, isExternal || parentIsExternal)
@@ -425,6 +431,9 @@ func (doc *T) derefResponse(r *ResponseRef, refNameResolver RefNameResolver, par
 }
 
 func (doc *T) derefResponses(rs *Responses, refNameResolver RefNameResolver, parentIsExternal bool) {
+	if rs == nil {
+		return
+	}
 	doc.derefResponseBodies(rs.Map(), refNameResolver, parentIsExternal)
 }
 
@@ -450,13 +459,16 @@ func (doc *T) derefRequestBody(r RequestBody, refNameResolver RefNameResolver, p
 func (doc *T) derefPaths(paths map[string]*PathItem, refNameResolver RefNameResolver, parentIsExternal bool) {
 	for _, name := range componentNames(paths) {
 		ops := paths[name]
+		if ops == nil {
+			continue
+		}
 		pathIsExternal := isExternalRef(ops.Ref, parentIsExternal)
 		// inline full operations
 		ops.Ref = ""
 
 		for _, param := range ops.Parameters {
 			isExternal := doc.addParameterToSpec(param, refNameResolver, pathIsExternal)
-			if param.Value != nil {
+			if param != nil && param.Value != nil {
 				doc.derefParameter(*param.Value, refNameResolver, pathIsExternal || isExternal)
 			}
 		}
@@ -471,7 +483,7 @@ func (doc *T) derefPaths(paths map[string]*PathItem, refNameResolver RefNameReso
 			for _, name := range componentNames(op.Callbacks) {
 				cb := op.Callbacks[name]
 				isExternal := doc.addCallbackToSpec(cb, refNameResolver, pathIsExternal)
-				if cb.Value != nil {
+				if cb != nil && cb.Value != nil {
 					cbValue := (*cb.Value).Map()
 					doc.derefPaths(cbValue, refNameResolver, pathIsExternal || isExternal)
 				}
@@ -479,7 +491,7 @@ func (doc *T) derefPaths(paths map[string]*PathItem, refNameResolver RefNameReso
 			doc.derefResponses(op.Responses, refNameResolver, pathIsExternal)
 			for _, param := range op.Parameters {
 				isExternal := doc.addParameterToSpec(param, refNameResolver, pathIsExternal)
-				if param.Value != nil {
+				if param != nil && param.Value != nil {
 					doc.derefParameter(*param.Value, refNameResolver, pathIsExternal || isExternal)
 				}
 			}
